@@ -796,6 +796,31 @@ fn rel_bag(g: &DumpG, ren: &HashMap<u64, u64>) -> Vec<(u64, u64, String, String)
 /// a bijection implementation-node -> model-node under which the two graphs are equal
 /// (node contents, relationship bag); identity is preferred.  None: not isomorphic.
 pub fn find_renaming(imp: &DumpG, model: &DumpG) -> Option<Vec<(u64, u64)>> {
+    find_renaming_rows(imp, model, None)
+}
+
+/// as `find_renaming`, and the renaming must also carry the implementation's rows (node
+/// handles `n<id>` in them) onto the model's rows: `rows = Some((implementation rows, model rows))`
+pub fn find_renaming_rows(imp: &DumpG, model: &DumpG, rows: Option<(&str, &str)>) -> Option<Vec<(u64, u64)>> {
+    // nodes present under the same handle with the same content keep their handle: they are
+    // placed first so that a new node never takes the place of an old look-alike
+    let mut imp = imp.clone();
+    imp.nodes.sort_by_key(|(id, ls, ps)| if model.nodes.iter().any(|(j, l2, p2)| j == id && l2 == ls && p2 == ps) { 0 } else { 1 });
+    let imp = &imp;
+    let want_rows = rows.map(|(_, m)| sort_rows_text(m));
+    let rows_ok = |ren: &HashMap<u64, u64>| -> bool {
+        match (&rows, &want_rows) {
+            (Some((r, _)), Some(w)) => {
+                let v: Vec<(u64, u64)> = ren.iter().map(|(a, b)| (*a, *b)).collect();
+                &rename_rows(r, &v) == w
+            }
+            _ => true,
+        }
+    };
+    find_renaming_inner(imp, model, &rows_ok)
+}
+
+fn find_renaming_inner(imp: &DumpG, model: &DumpG, rows_ok: &dyn Fn(&HashMap<u64, u64>) -> bool) -> Option<Vec<(u64, u64)>> {
     if imp.nodes.len() != model.nodes.len() || imp.rels.len() != model.rels.len() {
         return None;
     }
@@ -808,13 +833,14 @@ pub fn find_renaming(imp: &DumpG, model: &DumpG) -> Option<Vec<(u64, u64)>> {
         ren: &mut HashMap<u64, u64>,
         target: &Vec<(u64, u64, String, String)>,
         budget: &mut u64,
+        rows_ok: &dyn Fn(&HashMap<u64, u64>) -> bool,
     ) -> bool {
         if *budget == 0 {
             return false;
         }
         *budget -= 1;
         if i == imp.nodes.len() {
-            return &rel_bag(imp, ren) == target;
+            return &rel_bag(imp, ren) == target && rows_ok(ren);
         }
         let (id, ls, ps) = &imp.nodes[i];
         // identity first
@@ -826,7 +852,7 @@ pub fn find_renaming(imp: &DumpG, model: &DumpG) -> Option<Vec<(u64, u64)>> {
             }
             used[j] = true;
             ren.insert(*id, model.nodes[j].0);
-            if go(i + 1, imp, model, used, ren, target, budget) {
+            if go(i + 1, imp, model, used, ren, target, budget, rows_ok) {
                 return true;
             }
             ren.remove(id);
@@ -837,7 +863,7 @@ pub fn find_renaming(imp: &DumpG, model: &DumpG) -> Option<Vec<(u64, u64)>> {
     let mut used = vec![false; model.nodes.len()];
     let mut ren = HashMap::new();
     let mut budget = 200_000u64;
-    if go(0, imp, model, &mut used, &mut ren, &target, &mut budget) {
+    if go(0, imp, model, &mut used, &mut ren, &target, &mut budget, rows_ok) {
         let mut v: Vec<(u64, u64)> = ren.into_iter().filter(|(a, b)| a != b).collect();
         v.sort();
         Some(v)
